@@ -545,7 +545,8 @@ class XMLParserMixin(
         if base64 and self.contentparams.get("base64", 0):
             try:
                 output = base64.decodebytes(output.encode("utf8")).decode("utf8")
-            except (binascii.Error, binascii.Incomplete, UnicodeDecodeError):
+            except (binascii.Error, binascii.Incomplete, UnicodeError):
+                # (UnicodeEncodeError: text with lone surrogates is not base64)
                 pass
 
         # resolve relative URIs
